@@ -134,10 +134,10 @@ def check_pdf(a, mlim, seed):
         return {"clause": "density non-negative", "x": repr(float(grid[i])), "value": repr(float(vals[i]))}
     for i in range(1, n):
         left = float(k._norm * k._C[i - 1] * mlim[i] ** (-a[i - 1])); right = float(k._norm * k._C[i] * mlim[i] ** (-a[i]))
-        if abs(left - right) > 1e-9 * abs(left):
+        if not abs(left - right) <= 1e-9 * abs(left):
             return {"clause": "continuous at interior limits", "limit": repr(mlim[i]), "observed": [repr(left), repr(right)]}
     tot = sum(gl(lambda m: float(k._norm * k._C[i]) * m ** (-a[i]), mlim[i], mlim[i + 1]) for i in range(n))
-    if abs(tot - 1) > 1e-9:
+    if not abs(tot - 1) <= 1e-9:
         return {"clause": "integrates to one", "observed": repr(tot)}
     rng = np.random.default_rng(seed)
     for _ in range(6):
@@ -158,7 +158,7 @@ def check_pdf(a, mlim, seed):
             c = float(k._norm * k._C[i])
             w0 += gl(lambda m: c * m ** (-a[i]), p, q)
             w1 += gl(lambda m: c * m * m ** (-a[i]), p, q)
-        if abs(I0 - w0) > 1e-8 * max(w0, 1e-300) or abs(I1 - w1) > 1e-8 * max(w1, 1e-300):
+        if not (abs(I0 - w0) <= 1e-8 * max(w0, 1e-300) and abs(I1 - w1) <= 1e-8 * max(w1, 1e-300)):
             return {"clause": "integral() returns the zeroth and first moments of the density over the sub-range", "range": [repr(lo), repr(hi)],
                     "observed": [repr(float(I0)), repr(float(I1))], "expected": [repr(w0), repr(w1)]}
     np.random.seed(seed % (2 ** 31))
